@@ -398,6 +398,55 @@ def r26_7(ctx, rep):
                "UTF-8 raises UnicodeDecodeError — it is not counted as an error and no further file or model is processed")
 
 
+def _args_attrs(e):
+    return {a.attr for a in ast.walk(e) if isinstance(a, ast.Attribute) and is_name(a.value, "args")}
+
+
+@SPEC.rule(
+    "R26.8",
+    "a usage error is counted whatever else is requested: every log.error of main() that is reached before the first `return "
+    "errors` (the argument checks) is guarded only by tests on the argument it is about — the arguments named in its own "
+    "message, in the loop that feeds it, or in its innermost test; a guard on another argument (`if args.target and "
+    "args.option:` around the -O syntax check) makes the error count depend on unrelated options",
+)
+def r26_8(ctx, rep):
+    R = "R26.8"
+    fn = _main_fn(ctx, R)
+    cfg = CFG(fn, R)
+    rets = [x for x in cfg.stmts() if isinstance(x.ast, ast.Return)]
+    if not rets:
+        raise MechanismMissing(R, "main() has no return")
+    first_ret = min(rets, key=lambda x: x.lineno)
+    n = 0
+    for lg in [x for x in cfg.nodes if _is_log_error(x) and x.lineno < first_ret.lineno]:
+        own = set()
+        for c in calls(lg.ast):
+            own |= _args_attrs(c)
+        p_ = getattr(lg.ast, "_parent", None)
+        inner_test = None
+        while p_ is not None and p_ is not fn:
+            if isinstance(p_, ast.For):
+                own |= _args_attrs(p_.iter)
+            if isinstance(p_, ast.If) and inner_test is None:
+                inner_test = p_.test
+                own |= _args_attrs(p_.test)
+            p_ = getattr(p_, "_parent", None)
+        # real tests only: the "loop exhausted" exit of an earlier for-loop dominates what follows it but decides nothing
+        guards = [g for g in cfg.nodes if g.kind == "assume" and g.id in cfg.dominators()[lg.id] and g.ast is not inner_test
+                  and not any(cfg.nodes[p].kind == "iter" for p in cfg.pred[g.id])]
+        foreign = sorted({a for g in guards for a in _args_attrs(g.ast)} - own)
+        msg = ""
+        for c in calls(lg.ast):
+            if call_name(c) in ("log.error", "log.exception") and c.args:
+                msg = norm(c.args[0])[:50]
+        n += 1
+        rep.ob(R, CLI + ":main", "usage check %s depends only on its own argument" % msg, not foreign or not own,
+               "this argument check (about args.%s) only runs when a test on args.%s allows it: the same invalid argument is then counted "
+               "in one invocation and ignored in another" % ("/".join(sorted(own)) or "?", "/".join(foreign)))
+    if n < 3:
+        raise MechanismMissing(R, "fewer than 3 argument checks found before the first return of main()")
+
+
 # -- seeded variants ---------------------------------------------------------
 from ._mut import delete_stmt_where, replace_in_func  # noqa: E402
 
@@ -488,3 +537,15 @@ def _m_narrow(mod):
         return False
 
     return mod if replace_in_func(mod, "parse_file", edit) else None
+
+
+@SPEC.mutant("option syntax only checked with a target", CLI, "R26.8", "Invalid option syntax")
+def _m_optguard(mod):
+    def edit(fn):
+        for n in ast.walk(fn):
+            if isinstance(n, ast.If) and norm(n.test) == "args.option" and any(isinstance(x, ast.For) for x in n.body):
+                n.test = ast.parse("args.target and args.option", mode="eval").body
+                return True
+        return False
+
+    return mod if replace_in_func(mod, "main", edit) else None
